@@ -1,6 +1,7 @@
 import GBProofs.Props.C12
 import GBProofs.RigidMotion
 import GBProofs.TraceLaws
+import GBProofs.AngMom
 /-!
 # C12 — covariance under every rigid motion (translations, proper and improper rotations)
 
@@ -18,8 +19,9 @@ import GBProofs.TraceLaws
   the translation invariance of the Coulomb-type blocks, `pointChargeBlock_translate`, `eriBlock_translate`,
   which `TranslationLaws.lean` (tables of the one-dimensional recursions) does not cover.
 `TraceLaws.lean` adds the kinetic block: `kineticBlock_moved` (through `T_ab = ½∫∇φ_a·∇φ_b` and the covariance of
-`∇ψ₁·∇ψ₂` under an affine isometry, `covDot_fderiv_moved`).  Not proved: rotation covariance of the momentum /
-moment blocks (vector and tensor components) and spherical shells (`T D T⁺`); both are checked on the implementation.
+`∇ψ₁·∇ψ₂` under an affine isometry, `covDot_fderiv_moved`).  `AngMom.lean` adds the momentum blocks (`momentumBlock_moved`: vector index rotated by R) and the origin law
+`angmomBlock_translate` (L′ = L + d × p).  Not proved: rotation covariance of the angular-momentum (pseudo-vector) and
+moment (tensor) blocks and spherical shells (`T D T⁺`); both are checked on the implementation.
 -/
 namespace GB.C12
 alias block_covariant_overlap := overlapBlock_moved
